@@ -674,16 +674,25 @@ func (u *Unit) mapDom(st *State, m Val, mt *types.Map) string {
 
 func (u *Unit) mapLookup(st *State, m, k Val, mt *types.Map) (Val, Val) {
 	ks, vs, mdKey, mvKey := u.mapKeys(mt)
-	_ = ks
-	hd := u.heapTerm(st, mdKey, u.sortOfHeapKey(mdKey))
-	hv := u.heapTerm(st, mvKey, u.sortOfHeapKey(mvKey))
-	in := "(select (select " + hd + " " + m.T + ") " + k.T + ")"
-	// a nil map has no keys
-	inNN := and(not(eq(m.T, "0")), in)
-	val := ite(inNN, "(select (select "+hv+" "+m.T+") "+k.T+")", u.reg.zero(vs))
-	v := Val{T: val, S: vs, GT: mt.Elem()}
+	hdS, hvS := u.sortOfHeapKey(mdKey), u.sortOfHeapKey(mvKey)
+	hd := u.heapTerm(st, mdKey, hdS)
+	hv := u.heapTerm(st, mvKey, hvS)
+	// map access through two defined functions (compact, E-matching friendly terms):
+	//   maphas(D, m, k)     = m != nil && D[m][k]
+	//   mapget(D, V, m, k)  = maphas(D, m, k) ? V[m][k] : zero          (a nil map has no keys)
+	has := "maphas_" + mangleSort(ks)
+	get := "mapget_" + mangleSort(ks) + "_" + mangleSort(vs)
+	if _, ok := u.reg.funDecls[has]; !ok {
+		u.reg.declare(has, []string{hdS, "Int", ks}, "Bool")
+		u.reg.axiom(fmt.Sprintf("(forall ((d %s) (m Int) (k %s)) (! (= (%s d m k) (and (not (= m 0)) (select (select d m) k))) :pattern ((%s d m k))))", hdS, ks, has, has))
+	}
+	if _, ok := u.reg.funDecls[get]; !ok {
+		u.reg.declare(get, []string{hdS, hvS, "Int", ks}, vs)
+		u.reg.axiom(fmt.Sprintf("(forall ((d %s) (v %s) (m Int) (k %s)) (! (= (%s d v m k) (ite (%s d m k) (select (select v m) k) %s)) :pattern ((%s d v m k))))", hdS, hvS, ks, get, has, u.reg.zero(vs), get))
+	}
+	v := Val{T: fmt.Sprintf("(%s %s %s %s %s)", get, hd, hv, m.T, k.T), S: vs, GT: mt.Elem()}
 	u.allocFact(st, v)
-	return v, Val{T: inNN, S: "Bool", GT: tBool}
+	return v, Val{T: fmt.Sprintf("(%s %s %s %s)", has, hd, m.T, k.T), S: "Bool", GT: tBool}
 }
 
 func (u *Unit) mapStore(st *State, m, k, v Val, mt *types.Map) {
@@ -761,7 +770,13 @@ func (u *Unit) box(st *State, v Val, to types.Type) Val {
 	if v.S == "Int" && u.isRefType(v.GT) {
 		// pointer-like: the reference itself, with its dynamic type recorded
 		if !isSimpleLiteral(v.T) {
-			st.assume(implies(not(eq(v.T, "0")), eq(u.reg.dyn(v.T), u.reg.tagOf(v.GT))))
+			fact := implies(not(eq(v.T, "0")), eq(u.reg.dyn(v.T), u.reg.tagOf(v.GT)))
+			if !strings.Contains(v.T, "q_") {
+				// a closed term of static pointer type: its dynamic type is a fact about the term itself
+				u.reg.axiom(fact)
+			} else {
+				st.assume(fact)
+			}
 		}
 		nv := v
 		nv.Dyn = v.GT
